@@ -166,6 +166,23 @@ def class_of_expr(p: Project, fi: FuncInfo, e: ast.AST, depth: int = 0) -> Class
             for c in p.mro(base):
                 if e.attr in c.fields and c.fields[e.attr][0] is not None:
                     return _class_from_annotation(p, c.module, c.fields[e.attr][0])
+            # instance attributes assigned in methods: self.attr: T = ... / self.attr = Class(...)
+            for c in p.mro(base):
+                for mth in c.methods.values():
+                    for n in walk_own(mth.node):
+                        tgt = None
+                        if isinstance(n, ast.AnnAssign):
+                            tgt = n.target
+                            if isinstance(tgt, ast.Attribute) and isinstance(tgt.value, ast.Name) and tgt.value.id == "self" and tgt.attr == e.attr:
+                                r = _class_from_annotation(p, c.module, n.annotation)
+                                if r is not None:
+                                    return r
+                        elif isinstance(n, ast.Assign):
+                            for t in n.targets:
+                                if isinstance(t, ast.Attribute) and isinstance(t.value, ast.Name) and t.value.id == "self" and t.attr == e.attr and isinstance(n.value, ast.Call):
+                                    r = class_of_expr(p, mth, n.value, depth + 1)
+                                    if r is not None:
+                                        return r
         return None
     return None
 
